@@ -115,7 +115,9 @@ class Trace(object):
                 c, m = op["c"], op["msg"]
                 t = m.get("type")
                 ok = not st.frames(c, "error") and not st.internal() and st.frames(c, "ack")
-                if t == "bind" and ok and c not in bind and "appid" in m and "side" in m:
+                if t == "bind" and c not in bind and "appid" in m and "side" in m and st.frames(c, "ack") \
+                        and not st.frames(c, "error"):
+                    # (an unindexable client_version raises after the connection was bound)
                     bind[c] = (m["appid"], m["side"])
                 if t == "open" and ok and c in bind:
                     sub[c] = (bind[c][0], m["mailbox"])
@@ -923,6 +925,10 @@ def check_C17(tr, welcome=None):
         if st.internal() and not st.crashed():
             known = None
             clss = [x["cls"] for x in st.internal()]
+            if m.get("type") == "bind" and "client_version" in m:
+                import proto as _p
+                if _p.bad_client_version(m["client_version"]):
+                    continue      # outside the property's domain of well-formed commands (DESIGN 6, C17)
             if clss == ["IntegrityError"] and st.pre is not None and m.get("type") in ("open", "close"):
                 mbid = m.get("mailbox") or st.held_pre.get(c)
                 b = st.bind_pre.get(c)
